@@ -13,10 +13,14 @@ class EventLog:
     def __init__(self):
         self.events: list[dict] = []
         self.enabled = True
+        self.clock = None        # optional: callable returning virtual seconds; adds t (ms) to events
+        self.t0 = 0.0
 
     def emit(self, e: str, **fields):
         if self.enabled:
             fields["e"] = e
+            if self.clock is not None:
+                fields["t"] = int((self.clock() - self.t0) * 1000)
             self.events.append(fields)
         return fields
 
